@@ -232,7 +232,7 @@ class BleSubH(explore.Harness):
         timers = tuple(sorted(round(h._when - self.loop.time(), 6) for h in self.loop._scheduled if not h._cancelled))
         return (tuple(sorted(self.subscribed)), tuple(sorted(pr.subscriptions)), tuple(sorted(pr._notifications)), tuple(sorted(pr._broadcast_notifications)), pr._restore_pending,
                 link is not None, tuple(sorted(link.notifying)) if link else (), timers, tuple(sorted(self.rig.start_notify_fail)), tuple(sorted(self.n.items())),
-                tuple(self.acc.chars[i].value for i in EV_IIDS), len(self.logs["A"]), tuple(sorted(self.owed)), pr._fetched_gsn_this_session, pr._had_notify_this_session, pr.description.state_num if pr.description else None)
+                tuple(self.acc.chars[i].value for i in EV_IIDS), len(self.logs["A"]), tuple(sorted(self.owed)), pr._fetched_gsn_this_session, pr._had_notify_this_session, pr.description.state_num if pr.description else None, _canon.tasks_sig(self.loop))
 
     def outcome(self):
         link = self._link()
